@@ -416,6 +416,96 @@ static int replay_C12(const Args&)
    return fails;
 }
 
+// ---- C02 / C05 / C09 / C14: native sweeps over factory-built nodes (replay targets and fall-back for the generated obligations)
+static int replay_C02(const Args&)
+{
+   impl::Lexicon lex; impl::Translation_unit unit { lex }; impl::Region* g = unit.global_region();
+   const Type& i = lex.int_type(); const Type& c = lex.char_type();
+   auto* a = lex.make_literal(i, u8"1"); auto* b = lex.make_literal(i, u8"2"); auto* d = lex.make_literal(c, u8"3");
+   const Plus& p = *lex.make_plus(*a, *b, &i);
+   CLAUSE(&p.first() == a && &p.second() == b && &p.type() == &i && p.category == Category_code::Plus, "a binary node reports its operands in order, its type and its category");
+   const If& f2 = *lex.make_if(*a, *b); const If& f3 = *lex.make_if(*a, *b, *d);
+   CLAUSE(&f2.condition() == a && &f2.consequence() == b && !f2.alternative().is_valid() && f3.alternative().is_valid() && &f3.alternative().get() == d, "if-statements report condition, consequence and the optional alternative");
+   const Cast& k = *lex.make_cast(c, *a);
+   CLAUSE(&k.type() == &c && &k.expr() == a, "a cast reports its target type and operand");
+   const Enclosure& e = *lex.make_enclosure(Delimiter::Brace, *a);
+   CLAUSE(e.delimiters() == Delimiter::Brace && &e.expr() == a, "an enclosure reports its delimiters and expression");
+   const Binary_fold& bf = *lex.make_binary_fold(Category_code::Mul, *a, *b);
+   CLAUSE(bf.operation() == Category_code::Mul && &bf.first() == a && &bf.second() == b, "a binary fold reports its operation and operands");
+   auto& x = lex.get_identifier(u8"x");
+   auto* v1 = g->declare_var(x, i); auto* v2 = g->declare_var(x, i);
+   const Id_expr& id2 = *lex.make_id_expr(*v2);
+   CLAUSE(id2.resolution().is_valid() && &id2.resolution().get() == v2 && &id2.name() == &x && v1 != v2, "an id-expression of a redeclaration resolves to the declaration given, not to its master");
+   auto* pg = lex.make_pragma(); Source_location loc; loc.line = Line_number{7}; loc.column = Column_number{9};
+   const ipr::Token& t1 = *pg->tokens.push_back(lex.get_string(u8"once"), loc, TokenValue{1}, TokenCategory{2});
+   loc.line = Line_number{8}; loc.column = Column_number{1};
+   const ipr::Token& t2 = *pg->tokens.push_back(lex.get_string(u8"twice"), loc, TokenValue{3}, TokenCategory{4});
+   CLAUSE(t1.lexeme().locus().line == Line_number{7} && t1.lexeme().locus().column == Column_number{9} && t2.lexeme().locus().line == Line_number{8} && t1.value() == TokenValue{1} && t2.category() == TokenCategory{4}, "tokens report the location, value and category they were given");
+   const Sequence<ipr::Token>& inc = static_cast<const Pragma&>(*pg).incantation();
+   CLAUSE(inc.size() == 2 && &*inc.position(1) == &t2 && &*inc.position(0) == &t1 && &*inc.position(1) == &t2, "a member sequence read in any order yields the element at that index");
+   return fails;
+}
+static int replay_C05(const Args&)
+{
+   impl::Lexicon lex; impl::Translation_unit unit { lex }; impl::Region* g = unit.global_region();
+   const Type& i = lex.int_type();
+   std::vector<std::pair<const String*, std::u8string>> seen;
+   for (int k = 0; k < 2300; ++k) { std::u8string w(1000, char8_t(u8'a' + k % 26)); w += std::u8string(1, char8_t(u8'A' + (k / 26) % 26)); w += std::u8string(1, char8_t(u8'A' + k / 676)); seen.emplace_back(&lex.get_string(w), w); }
+   bool stable = true; for (auto& s : seen) stable = stable && s.first->characters() == util::word_view(s.second) && &lex.get_string(s.second) == s.first;
+   CLAUSE(stable, "every String interned earlier keeps its address and its characters after 2 MiB of later words");
+   auto* a = lex.make_literal(i, u8"1"); std::vector<const Plus*> ps;
+   for (int k = 0; k < 200; ++k) ps.push_back(lex.make_plus(*a, *a));
+   bool distinct = true; for (int k = 1; k < 200; ++k) distinct = distinct && ps[k] != ps[k - 1] && &ps[k - 1]->first() == a;
+   CLAUSE(distinct, "each make_plus yields a new node and earlier ones read as before");
+   impl::Mapping* m = lex.make_mapping(*g, Mapping_level{1}); auto& e = lex.get_identifier(u8"");
+   auto* p0 = m->param(e, i); auto before = m->parameters().region().bindings()[e];
+   auto* p1 = m->param(e, lex.char_type()); auto after = m->parameters().region().bindings()[e];
+   CLAUSE(before.is_valid() && after.is_valid() && &before.get() == &after.get() && &*m->parameters().elements().position(0) == p0 && &*m->parameters().elements().position(1) == p1, "a lookup observed earlier keeps its answer; members are added at the end");
+   auto& q = lex.get_forall(lex.get_product(impl::Warehouse<Type>{ }), i); auto& n = lex.get_identifier(u8"tmpl");
+   auto* t1 = g->declare_primary_template(n, q); auto* prim = &t1->primary_template(); (void)g->declare_primary_template(n, q);
+   CLAUSE(&t1->primary_template() == prim && prim == t1, "a primary template still reports itself after it is redeclared");
+   return fails;
+}
+static int replay_C09(const Args&)
+{
+   impl::Lexicon lex; impl::Translation_unit unit { lex }; impl::Region* g = unit.global_region();
+   const Type& i = lex.int_type(); auto* one = lex.make_literal(i, u8"1");
+   CLAUSE(&lex.make_break()->type() == &lex.void_type() && &lex.make_continue()->type() == &lex.void_type() && &lex.delete_value().type() == &lex.void_type(), "break, continue and the deleted-definition constant have type void");
+   CLAUSE(&lex.make_restriction(*one)->type() == &lex.bool_type() && &lex.make_requires(*g, Mapping_level{1})->type() == &lex.bool_type(), "requires-clauses and requires-expressions have type bool");
+   CLAUSE(&lex.make_class(*g)->type() == &lex.class_type() && &lex.make_union(*g)->type() == &lex.union_type() && &lex.make_namespace(*g)->type() == &lex.namespace_type() && &lex.make_closure(*g)->type() == &lex.class_type(), "user-defined types have their kind type");
+   CLAUSE(&static_cast<const Expr&>(lex.get_pointer(i)).type() == &lex.typename_type() && &static_cast<const Expr&>(lex.get_qualified(lex.const_qualifier(), i)).type() == &lex.typename_type(), "compound types have type typename");
+   const Type& ci = lex.get_qualified(lex.const_qualifier(), i);
+   CLAUSE(&lex.make_literal(i, u8"42")->type() == &i && &lex.make_literal(ci, u8"42")->type() == &ci && &lex.make_cast(ci, *one)->type() == &ci, "literals and casts report their target type, cv-qualified or not");
+   auto& x = lex.get_identifier(u8"x"); const Type& ri = lex.get_reference(i);
+   CLAUSE(&lex.make_id_expr(*g->declare_var(x, ri))->type() == &ri, "an id-expression of a reference declaration has that reference type");
+   auto* l = lex.make_expr_list(); l->push_back(one); bool ok = l->type().size() == 1; l->push_back(lex.make_literal(lex.char_type(), u8"c"));
+   CLAUSE(ok && l->type().size() == 2 && &l->type()[1] == &lex.char_type(), "an expression list's type follows later additions");
+   CLAUSE(&lex.get_this(i).type() == &i && &lex.get_this(lex.char_type()).type() == &lex.char_type() && &lex.get_this(i).type() == &i, "`this` of two types are two symbols, each with its type");
+   return fails;
+}
+static int replay_C14(const Args&)
+{
+   impl::Lexicon lex; impl::Translation_unit unit { lex }; impl::Region* g = unit.global_region();
+   const Type& i = lex.int_type(); auto* one = lex.make_literal(i, u8"1");
+   auto refuses = [](auto&& f) { try { f(); } catch (const std::logic_error&) { return true; } catch (...) { return false; } return false; };
+   CLAUSE(refuses([&] { (void)lex.make_for()->body(); }) && refuses([&] { (void)lex.make_while()->condition(); }) && refuses([&] { (void)lex.make_plus(*one, *one)->type(); }), "reading a link that was never set is refused with a logic error");
+   auto* b = lex.make_block(*g);
+   CLAUSE(refuses([&] { (void)*static_cast<const Block&>(*b).handlers().position(0); }) && refuses([&] { (void)*static_cast<const Block&>(*b).handlers().position(std::size_t(-1)); }) && refuses([&] { (void)*--static_cast<const Block&>(*b).handlers().begin(); }), "an element of an empty sequence is refused at every index, including size_t(-1)");
+   auto* h = b->new_handler(lex.get_identifier(u8"e"), i);
+   CLAUSE(&*static_cast<const Block&>(*b).handlers().position(0) == h && refuses([&] { (void)*static_cast<const Block&>(*b).handlers().position(1); }), "within bounds the element, at size() a refusal");
+   auto& op = lex.get_operator(u8"+"); impl::capture_spec_factory cf;
+   CLAUSE(refuses([&] { (void)cf.enclosing_local_capture(*g->declare_var(op, i), Binding_mode::Copy).name(); }), "a capture of a declaration that is not named by an identifier refuses to hand out an Identifier");
+   auto& n = lex.get_identifier(u8"f"); auto& ft = lex.get_function(lex.get_product(impl::Warehouse<Type>{ }), i);
+   auto* fd = g->declare_fun(n, ft);
+   CLAUSE(refuses([&] { (void)static_cast<const Fundecl&>(*fd).parameters(); }), "a function declaration without parameter list refuses parameters()");
+   fd->data.emplace<1>();
+   CLAUSE(refuses([&] { (void)static_cast<const Fundecl&>(*fd).parameters(); }), "a definition-form function declaration without mapping refuses parameters() with a logic error");
+   auto& q = lex.get_forall(lex.get_product(impl::Warehouse<Type>{ }), i); auto& vn = lex.get_identifier(u8"v"); (void)g->declare_var(vn, i);
+   bool ok = true; try { const Template& p = g->declare_secondary_template(vn, q)->primary_template(); ok = p.category == Category_code::Template; } catch (const std::logic_error&) { }
+   CLAUSE(ok, "primary_template() of a secondary template under a non-template name is refused or is a template");
+   return fails;
+}
+
 // ---- C13: Lexicon constants (native sweep over the 26 accessors and the spelling routes, two Lexicons)
 static int replay_C13(const Args&)
 {
@@ -585,6 +675,10 @@ int main(int argc, char** argv)
       else if (f == "C01" || f == "C04") n = replay_C01(a);
       else if (f == "C07") n = replay_C07(a);
       else if (f == "C06") n = replay_C06(a);
+      else if (f == "C02") n = replay_C02(a);
+      else if (f == "C05") n = replay_C05(a);
+      else if (f == "C09") n = replay_C09(a);
+      else if (f == "C14") n = replay_C14(a);
       else if (f == "C19") n = replay_C19(a);
       else if (f == "C13") n = replay_C13(a);
       else if (f == "C18") n = replay_C18(a);
